@@ -80,6 +80,7 @@ func TestRunners(t *testing.T) {
 			failing = rapid.IntRange(0, nr-1).Draw(t, "failing")
 		}
 		ids := make([]int, nr)
+		initFaults := 0
 		for i := range specs {
 			specs[i].Class = rapid.IntRange(0, 3).Draw(t, "class")
 			if specs[i].Class < 2 {
@@ -88,6 +89,11 @@ func TestRunners(t *testing.T) {
 			b := &zoo.Beh{ID: len(in.Comps) + len(in.Extra), Alias: fmt.Sprintf("runner-%d", i), Mask: "m0", Log: in.Log, OrderVal: specs[i].Ord}
 			if i == failing {
 				b.FailRun = 1
+			}
+			// occasionally the runner's own initialisation fails (always, or only at the first attempt)
+			if rapid.IntRange(0, 11).Draw(t, "initfault") == 0 {
+				b.FailInit = rapid.SampledFrom([]int{zoo.FailAlways, zoo.FailOnce}).Draw(t, "initfaultmode")
+				initFaults++
 			}
 			var c any
 			switch specs[i].Class {
@@ -111,7 +117,7 @@ func TestRunners(t *testing.T) {
 			in.Extra = append(in.Extra, &graph.ObsPP{Tag: fmt.Sprintf("o%d", k), Log: in.Log})
 		}
 		in.Run()
-		desc := fmt.Sprintf("%s runners=%v failing=%d obs=%d", s.Shape(), specs, failing, nobs)
+		desc := fmt.Sprintf("%s runners=%v failing=%d obs=%d initfaults=%d", s.Shape(), specs, failing, nobs, initFaults)
 		if in.Out.Panic != nil {
 			t.Fatalf("C13: panic %v\n%s", in.Out.Panic, desc)
 		}
@@ -133,7 +139,7 @@ func TestRunners(t *testing.T) {
 			}
 		}
 		// a start that failed before the runner phase is C09's subject
-		preFailure := in.Out.Err != nil && len(seq) == 0 && failing < 0
+		preFailure := in.Out.Err != nil && len(seq) == 0 && (failing < 0 || initFaults > 0)
 		if preFailure {
 			kit.Rec.Case(desc, false, "start-failed-before-runners")
 			return
@@ -159,6 +165,12 @@ func TestRunners(t *testing.T) {
 			}
 		}
 		labels := []string{}
+		if initFaults > 0 {
+			labels = append(labels, "runner-init-fault-survived")
+		}
+		if in.Out.Err == nil && len(seq) != nr {
+			t.Fatalf("C13: Run returned nil but %d of %d registered runners were invoked (sequence %v)\n%s", len(seq), nr, seq, desc)
+		}
 		if failing < 0 {
 			if in.Out.Err != nil {
 				t.Fatalf("C13: no runner failed but Run returned %v\n%s", in.Out, desc)
